@@ -56,6 +56,7 @@ type HarnessResult struct {
 	Funcs        map[string]bool
 	Samples      []string
 	MaxTrail     int
+	Records      []string
 	Notes        []string
 }
 
